@@ -793,7 +793,7 @@ func (ig *Integration) setCols() {
 			Notify:    slices.Contains(ig.Notification.Columns, c.Name),
 		})
 		ig.numBDSelected++
-		if strings.HasPrefix(c.Name, "trace_") {
+		if strings.HasPrefix(bd.Name, "trace_") {
 			ig.numTraceSelected++
 		}
 	}
